@@ -296,7 +296,7 @@ class Recorder:
                     self.inconclusive.append(f"{prog}/{gname}: solver returned unknown")
             if twin_fn is not None:
                 for gname, g in twin_fn(tr.A, O):
-                    r = dec.prove(g, name=f"{prog}/twin:{gname}")
+                    r = dec.refute(g, name=f"{prog}/twin:{gname}")
                     self.twins.append(dict(prog=prog, twin=gname, verdict=r["verdict"], ms=round(r["ms"], 2)))
                     if r["verdict"] in ("unsat", "structural"):
                         raise HarnessError(f"{prog}: reachability twin '{gname}' was proved - the harness cannot see what it claims to check")
